@@ -178,6 +178,48 @@ func emit(w *strings.Builder, pfx string, t *tables, msgs, opts []string, ns boo
 	fmt.Fprintf(w, "Definition %s_exec : list (N * bool * bool * N * bool * option N) := [%s].\n", pfx, strings.Join(rows, "; "))
 }
 
+type resolveRow struct {
+	Msg      string
+	V3       bool
+	Outbound bool
+	HasID    bool
+	HasThid  bool
+	HasPthid bool
+	PIID     string
+	State    string
+}
+
+var kindNo = map[string]int{"err": 0, "id": 1, "thid": 2, "pthid": 3, "fresh": 4}
+
+// emitResolve writes which identifier of a message the service takes as protocol instance id, and whose persisted
+// state it consults (0 = error, 1 = id, 2 = thid, 3 = pthid, 4 = a fresh id / start).
+func emitResolve(w *strings.Builder, pfx string, v interface{}, msgs []string) {
+	b, err := json.Marshal(v)
+	if err != nil {
+		panic(err)
+	}
+
+	var rows []resolveRow
+	if err := json.Unmarshal(b, &rows); err != nil {
+		panic(err)
+	}
+
+	var out []string
+
+	for i, r := range rows {
+		sep := ""
+		if i%4 == 0 {
+			sep = "\n  "
+		}
+
+		out = append(out, fmt.Sprintf("%s(%d, %s, %s, %s, %s, %s, %d, %d)", sep, idx(msgs, r.Msg), cb(r.V3), cb(r.Outbound),
+			cb(r.HasID), cb(r.HasThid), cb(r.HasPthid), kindNo[r.PIID], kindNo[r.State]))
+	}
+
+	fmt.Fprintf(w, "(* (msg, v3, outbound, has id, has thid, has pthid, identifier taken as instance id, identifier whose state is read) *)\n")
+	fmt.Fprintf(w, "Definition %s_resolve : list (N * bool * bool * bool * bool * bool * N * N) := [%s].\n", pfx, strings.Join(out, "; "))
+}
+
 func sameList(a, b []string) bool {
 	if len(a) != len(b) {
 		return false
@@ -215,6 +257,9 @@ func main() {
 		c09tab.Msgs["pp"], c09tab.Opts["pp"], false)
 	emit(&w, "intro", conv(introduce.VerifGraph()),
 		c09tab.Msgs["intro"], c09tab.Opts["intro"], false)
+	emitResolve(&w, "ic", issuecredential.VerifResolve(), c09tab.Msgs["ic"])
+	emitResolve(&w, "pp", presentproof.VerifResolve(), c09tab.Msgs["pp"])
+	emitResolve(&w, "intro", introduce.VerifResolve(), c09tab.Msgs["intro"])
 	emit(&w, "didex", conv(didexchange.VerifGraph()),
 		c09tab.Msgs["didex"], nil, true)
 	emit(&w, "legacy", conv(legacyconnection.VerifGraph()),
